@@ -45,8 +45,6 @@ DrainC(K, pre, post, a) ==
     sign     |-> Ge(a.dp, Z),
     pondSame |-> post.pond = pre.pond,
     belowSat |-> \A i \in Idx(K) : LeTol(post.W[i], K.Wsat[i], Tol9),
-    \* a compartment never drains below its (adjusted) field capacity, and one at/below it never loses water
-    keepsFc  |-> \A i \in Idx(K) : LeTol(Min(pre.W[i], a.fcAdj[i]), post.W[i], Tol9),
     \* no net upward movement across any interface: prefix sums never grow
     downward |-> \A i \in Idx(K) : LeTol(SumTo(post.W, i), SumTo(pre.W, i), Tol6),
     dpCap    |-> LeTol(a.dp, K.ksat[K.N], Tol9) ]
